@@ -9,7 +9,7 @@ if ! git diff --quiet; then echo "refusing: /repo has uncommitted changes"; exit
 git apply "$PATCH" || { echo "patch does not apply"; exit 2; }
 trap 'git -C /repo checkout -- . ' EXIT
 for id in "$@"; do
-  out=$(cd /verif && VERIF_SEED="${VERIF_SEED:-0}" ./check "$id" --tier "${TIER:-quick}" 2>&1)
+  out=$(cd /verif && QUICKADD_OUT="${QUICKADD_OUT:-/tmp/qa_seedout}" VERIF_SEED="${VERIF_SEED:-0}" ./check "$id" --tier "${TIER:-quick}" 2>&1)
   rc=$?
   nviol=$(echo "$out" | grep -c "^VIOLATION")
   first=$(echo "$out" | grep -m1 "^VIOLATION" | cut -c1-260)
